@@ -237,3 +237,42 @@ package validator
 //@   trusted "validator tree: arbitrary effect (nothing assumed)"
 //@   maypanic
 //@   modifies *
+
+// ---- C03: additionalProperties: what each mode does with a key the example does not name ----
+
+// mode "any" (and the tail of "object"/"array"): a whole nested value is swallowed by depth counting
+//@ func (*additionalPropertiesValidator).feedAny(jsonLexeme)
+//@   props C03
+//@   requires v != nil && (isOpeningEvent(jsonLexeme.lexEventType) || v.depth > 0) && v.depth < 18446744073709551615
+//@   nopanic
+//@   modifies v.depth
+//@   ensures v.depth == old(v.depth) + (isOpeningEvent(jsonLexeme.lexEventType) ? 1 : 0 - 1)
+//@   ensures result1 == (v.depth == 0) && len(result0) == 0
+
+// mode "object": the value must START as an object, the rest is swallowed
+//@ func (*additionalPropertiesValidator).feedObject(jsonLexeme)
+//@   props C03
+//@   requires v != nil && v.depth == 0
+//@   maypanic
+//@   modifies v.depth, v.feedFunc
+//@   ensures panics <==> jsonLexeme.lexEventType != lexeme.ObjectBegin
+//@   ensures panics ==> errWF(pv)
+//@   ensures normal ==> v.depth == 1 && !result1 && len(result0) == 0
+
+// mode "array": the value must START as an array
+//@ func (*additionalPropertiesValidator).feedArray(jsonLexeme)
+//@   props C03
+//@   requires v != nil && v.depth == 0
+//@   maypanic
+//@   modifies v.depth, v.feedFunc
+//@   ensures panics <==> jsonLexeme.lexEventType != lexeme.ArrayBegin
+//@   ensures panics ==> errWF(pv)
+//@   ensures normal ==> v.depth == 1 && !result1 && len(result0) == 0
+
+// default: a key the example does not name is an error positioned at the key
+//@ func (*additionalPropertiesValidator).feedNotAllowed(lex)
+//@   props C03 C17
+//@   requires lexWF(lex) && lex.end + 1 - lex.begin <= 1000000000000
+//@   maypanic
+//@   ensures panics
+//@   ensures panics ==> typeis(pv, errors.DocumentError) && unbox(pv, errors.DocumentError).index == lex.begin && unbox(pv, errors.DocumentError).hasIndex && unbox(pv, errors.DocumentError).code == errors.ErrSchemaDoesNotSupportKey
